@@ -511,13 +511,13 @@ EXPORT int _towfc_s_chk(wchar_t *restrict dest, rsize_t dmax, const uint32_t src
                                            (void *)dest, ESLEMIN);
         return -(ESLEMIN);
     }
-    dest[0] = L'\0';
     if (unlikely(dmax > RSIZE_MAX_WSTR)) {
         invoke_safe_str_constraint_handler("towfc_s: "
                                            "dmax exceeds max",
                                            (void *)dest, ESLEMAX);
         return -(ESLEMAX);
     }
+    dest[0] = L'\0';
     if (destbos == BOS_UNKNOWN) {
         BND_CHK_PTR_BOUNDS(dest, destsz);
     } else {
